@@ -76,6 +76,7 @@ type G struct {
 	done    bool
 	prio    int
 	started bool
+	harnessOnly bool // never runs library code (raw peer actors/readers): ordered with the other harness-only goroutines
 }
 
 func (g *G) Done() bool   { return g.done }
@@ -90,6 +91,11 @@ func (g *G) DescendsFrom(a *G) bool {
 		}
 	}
 	return false
+}
+
+type heldLock struct {
+	m *sync.Mutex
+	g *G
 }
 
 type Event struct {
@@ -116,9 +122,10 @@ type PanicInfo struct {
 
 type Sim struct {
 	mu     sync.Mutex
-	byGoid map[uint64]*G
+	goids  []uint64 // no maps here: the runtime's map helpers report to the race detector on behalf of uninstrumented callers
+	gsByID []*G
 	all    []*G
-	held   map[*sync.Mutex]*G
+	held   []heldLock
 
 	rng      uint64
 	Tape     []int32 // pairs (n, v)
@@ -154,7 +161,7 @@ var S *Sim
 
 func New(seed uint64) *Sim {
 	s := &Sim{rng: seed*2862933555777941757 + 3037000493, MaxSteps: 200000,
-		byGoid: map[uint64]*G{}, held: map[*sync.Mutex]*G{}, Hash: 14695981039346656037, SchedHash: 14695981039346656037}
+		Hash: 14695981039346656037, SchedHash: 14695981039346656037}
 	if s.rng == 0 {
 		s.rng = 88172645463325252
 	}
@@ -203,7 +210,13 @@ func goid() uint64 {
 func (s *Sim) curLocked() *G {
 	id := goid()
 	s.mu.Lock()
-	g := s.byGoid[id]
+	var g *G
+	for i := len(s.goids) - 1; i >= 0; i-- {
+		if s.goids[i] == id {
+			g = s.gsByID[i]
+			break
+		}
+	}
 	s.mu.Unlock()
 	return g
 }
@@ -327,7 +340,8 @@ func pad3(n int) string {
 func child(s *Sim, g *G, site int, f func()) {
 	raceDisable()
 	s.mu.Lock()
-	s.byGoid[goid()] = g
+	s.goids = append(s.goids, goid())
+	s.gsByID = append(s.gsByID, g)
 	s.mu.Unlock()
 	s.park(g, site, nil, nil)
 	raceEnable()
@@ -349,6 +363,9 @@ func exit(s *Sim, g *G) {
 		default:
 			val = "panic (non-string value)"
 		}
+	}
+	if g.harnessOnly {
+		hsRelease()
 	}
 	raceDisable()
 	s.mu.Lock()
@@ -379,10 +396,36 @@ func Yield(site int) {
 	}
 	raceDisable()
 	g := s.curLocked()
-	if g != nil {
-		s.park(g, site, nil, nil)
-	}
 	raceEnable()
+	if g == nil {
+		return
+	}
+	if g.harnessOnly {
+		hsRelease()
+	}
+	raceDisable()
+	s.park(g, site, nil, nil)
+	raceEnable()
+	if g.harnessOnly {
+		hsAcquire()
+	}
+}
+
+// HarnessOnly declares that the calling goroutine never runs library code.
+//
+//go:norace
+func HarnessOnly() {
+	s := S
+	if s == nil {
+		return
+	}
+	raceDisable()
+	g := s.curLocked()
+	raceEnable()
+	if g != nil {
+		g.harnessOnly = true
+		hsAcquire()
+	}
 }
 
 // YieldUntil parks until cond holds (evaluated by the scheduler at quiescence).
@@ -395,10 +438,19 @@ func YieldUntil(site int, cond func() bool) {
 	}
 	raceDisable()
 	g := s.curLocked()
-	if g != nil {
-		s.park(g, site, cond, nil)
-	}
 	raceEnable()
+	if g == nil {
+		return
+	}
+	if g.harnessOnly {
+		hsRelease()
+	}
+	raceDisable()
+	s.park(g, site, cond, nil)
+	raceEnable()
+	if g.harnessOnly {
+		hsAcquire()
+	}
 }
 
 //go:norace
@@ -413,7 +465,7 @@ func Lock(site int, m *sync.Mutex) {
 	if g != nil {
 		s.park(g, site, nil, m)
 		s.mu.Lock()
-		s.held[m] = g
+		s.held = append(s.held, heldLock{m, g})
 		s.mu.Unlock()
 	}
 	raceEnable()
@@ -429,7 +481,12 @@ func Unlock(m *sync.Mutex) {
 	}
 	raceDisable()
 	s.mu.Lock()
-	delete(s.held, m)
+	for i := range s.held {
+		if s.held[i].m == m {
+			s.held = append(s.held[:i], s.held[i+1:]...)
+			break
+		}
+	}
 	s.mu.Unlock()
 	raceEnable()
 }
@@ -482,8 +539,12 @@ func MapOrder[K interface {
 //
 //go:norace
 func (s *Sim) Run() (quiescent bool) {
+	hsRelease()
 	raceDisable()
-	defer raceEnable()
+	defer func() {
+		raceEnable()
+		hsAcquire()
+	}()
 	var en []*G
 	for {
 		synctest.Wait()
@@ -502,10 +563,8 @@ func (s *Sim) Run() (quiescent bool) {
 			if !g.parked || g.done {
 				continue
 			}
-			if g.lockOn != nil {
-				if _, h := s.held[g.lockOn]; h {
-					continue
-				}
+			if g.lockOn != nil && s.isHeld(g.lockOn) {
+				continue
 			}
 			if g.cond != nil && !g.cond() {
 				continue
@@ -535,6 +594,16 @@ func (s *Sim) Run() (quiescent bool) {
 		s.mu.Unlock()
 		g.wake <- struct{}{}
 	}
+}
+
+//go:norace
+func (s *Sim) isHeld(m *sync.Mutex) bool {
+	for i := range s.held {
+		if s.held[i].m == m {
+			return true
+		}
+	}
+	return false
 }
 
 //go:norace
